@@ -5,7 +5,7 @@
    spec_case : what the implementation did is what a finite map would do
                (reference association list), evictions never take the protected
                key, Len = number of entries, capacity respected. *)
-From Sdns Require Export Common.Base Gen.C16 C16.Model.
+From Sdns Require Export Common.Base Gen.C16 C16.Model C16.Conc.
 Open Scope nat_scope.
 
 (* ---------------------------------------------------------------- cases *)
@@ -35,6 +35,13 @@ Inductive sop :=
 | SAll (r : list (N * N)).
 Inductive sstep := Ss (o : sop) (len : Z).
 
+(* Grant j: the test released segment j's lock (None: the start, nothing released)
+   and took it back once every thread was parked in front of a lock or had returned;
+   then: the counter, the non-empty segments in ForEach order, which threads have
+   returned, how many threads wait in front of which lock *)
+Inductive gstep :=
+| Grant (j : option nat) (count : Z) (segs : list (nat * list (N * N))) (done : list bool) (waiting : list (nat * nat)).
+
 Inductive case :=
   (* NewUInt64Map(cap): observed len(data), growAt; history; final non-empty slots (index,key,value), final len(data) *)
 | CaseTab (cap n0 g0 : Z) (steps : list tstep) (final : list (N * N * N)) (nfinal : Z)
@@ -43,7 +50,12 @@ Inductive case :=
   (* cache.New(size): SSwc carries maxSize *)
 | CaseCache (size : Z) (steps : list sstep)
   (* go-side only cases (concurrency stress, large-table growth): nothing to evaluate *)
-| CaseGo (tag : N).
+| CaseGo (tag : N)
+  (* a forced schedule of concurrent calls on a 16-segment map (see "schedules" below):
+     sequential SetWithCap prefix, one program per thread, the grants with what was
+     observed after each, what the readers returned *)
+| CaseSched (prefix : list (N * N * Z)) (progs : list (list call))
+            (steps : list gstep) (reads : list (nat * obs)).
 
 (* ------------------------------------------------------------- helpers *)
 Definition dig_p : N := 1099511628211%N.
@@ -143,6 +155,97 @@ Fixpoint seg_run (m : segmap) (steps : list sstep) : option segmap :=
       end
   end.
 
+(* ----------------------------------------------------- check: schedules *)
+(* The test owns every segment lock, so each thread stands in front of the next
+   lock it needs (or has returned).  Releasing lock j lets exactly the threads in
+   front of j run, each until it stands in front of another lock or returns; their
+   steps interleave in an order the test does not control, so the model computes
+   every outcome (all interleavings of the atomic steps of Conc.v) and keeps those
+   that agree with what was observed.  Nothing left = the code did something the
+   interleaving model cannot do. *)
+Definition acq_target (n : nat) (p : pc) : option nat :=
+  match p with
+  | SwcLock k _ _ => Some (go_sidx n k)
+  | SpEvict k _ i _ => Some (Nat.modulo (go_sidx n k + i) n)
+  | OpLock c => Some (go_sidx n (call_key c))
+  | ClrSeg i => if i <? n then Some i else None
+  | RdGet k => Some (go_sidx n k)
+  | FeSeg i _ => if i <? n then Some i else None
+  | _ => None
+  end.
+Definition onat_eqb (a b : option nat) : bool :=
+  match a, b with Some x, Some y => Nat.eqb x y | None, None => true | _, _ => false end.
+Definition thread_done (s : cstate) (tid : nat) : bool :=
+  match nth tid (c_thr s) (Idle, []) with (Idle, []) => true | _ => false end.
+Definition stopped (free : option nat) (s : cstate) (tid : nat) : bool :=
+  thread_done s tid ||
+  match acq_target (nsegs (c_map s)) (fst (nth tid (c_thr s) (Idle, []))) with
+  | Some t => negb (onat_eqb free (Some t))
+  | None => false
+  end.
+Fixpoint explore (rescan : bool) (fuel : nat) (free : option nat) (tids : list nat) (s : cstate) : list cstate :=
+  match fuel with
+  | O => []
+  | S f =>
+      match filter (fun t => negb (stopped free s t)) tids with
+      | [] => [s]
+      | movable => flat_map (fun t => match step go_mix go_sidx go_eoff rescan s t with
+                                      | Some s' => explore rescan f free tids s'
+                                      | None => []
+                                      end) movable
+      end
+  end.
+Fixpoint seg_pairs (segs : list (nat * list (N * N))) (i : nat) : list (N * N) :=
+  match segs with [] => [] | (j, l) :: r => if Nat.eqb i j then l else seg_pairs r i end.
+Fixpoint waiting_at (w : list (nat * nat)) (i : nat) : nat :=
+  match w with [] => 0 | (j, c) :: r => if Nat.eqb i j then c else waiting_at r i end.
+Fixpoint bools_eqb (a b : list bool) : bool :=
+  match a, b with [] , [] => true | x :: r, y :: s => Bool.eqb x y && bools_eqb r s | _, _ => false end.
+Definition grant_match (g : gstep) (s : cstate) : bool :=
+  let '(Grant _ count segs done waiting) := g in
+  let m := c_map s in
+  let n := nsegs m in
+  let tids := seq 0 (length (c_thr s)) in
+  Z.eqb (sm_count m) count &&
+  forallb (fun i => pairs_eqb (tall (seg m i)) (seg_pairs segs i)) (seq 0 n) &&
+  forallb (fun p => Nat.ltb (fst p) n) segs &&
+  bools_eqb (map (thread_done s) tids) done &&
+  forallb (fun i => Nat.eqb (length (filter (fun t => negb (thread_done s t) &&
+                                              onat_eqb (acq_target n (fst (nth t (c_thr s) (Idle, [])))) (Some i)) tids))
+                            (waiting_at waiting i)) (seq 0 n) &&
+  forallb (fun t => negb (t_bad t)) (sm_segs m).
+Fixpoint sched_run (rescan : bool) (states : list cstate) (steps : list gstep) : list cstate :=
+  match steps with
+  | [] => states
+  | g :: rest =>
+      let '(Grant j _ _ _ _) := g in
+      sched_run rescan
+        (filter (grant_match g)
+           (flat_map (fun s => explore rescan 400 j (seq 0 (length (c_thr s))) s) states)) rest
+  end.
+(* what the readers returned: per thread, in the order of their calls *)
+Definition obs_eqb (a b : obs) : bool :=
+  match a, b with
+  | ObGet k r, ObGet k' r' => N.eqb k k' && optN_eqb r r'
+  | ObAll l, ObAll l' => pairs_eqb l l'
+  | _, _ => false
+  end.
+Fixpoint reads_eqb (a b : list (nat * obs)) : bool :=
+  match a, b with
+  | [], [] => true
+  | (t, o) :: r, (t', o') :: s => Nat.eqb t t' && obs_eqb o o' && reads_eqb r s
+  | _, _ => false
+  end.
+Definition reads_of (s : cstate) (tid : nat) : list (nat * obs) :=
+  filter (fun p => Nat.eqb (fst p) tid) (rev (c_obs s)).
+Definition sched_check (rescan : bool) (prefix : list (N * N * Z)) (progs : list (list call))
+                       (steps : list gstep) (reads : list (nat * obs)) : bool :=
+  let m0 := fold_left (fun m p => let '(k, v, cap) := p in sm_set_with_cap go_mix go_sidx go_eoff m k v cap)
+                      prefix (new_segmap 4 0) in
+  let finals := sched_run rescan [init m0 progs] steps in
+  existsb (fun s => quiescent s &&
+                    reads_eqb (flat_map (reads_of s) (seq 0 (length progs))) reads) finals.
+
 Definition check_case (c : case) : bool :=
   match c with
   | CaseTab cap n0 g0 steps final nfinal =>
@@ -161,6 +264,9 @@ Definition check_case (c : case) : bool :=
       forallb (fun s => match s with Ss (SSwc _ _ cap _) _ => Z.eqb cap (snd (new_cache size)) | _ => true end) steps &&
       match seg_run (fst (new_cache size)) steps with Some m => seg_ok m | None => false end
   | CaseGo _ => true
+  | CaseSched prefix progs steps reads =>
+      (* with the spill loop the source text has (Conc.go_rescan) *)
+      sched_check go_rescan prefix progs steps reads
   end.
 
 (* ------------------------------------------------------------- the spec *)
@@ -253,10 +359,38 @@ Fixpoint seg_spec_run (m : ref) (steps : list sstep) : bool :=
       end
   end.
 
+(* A forced schedule, judged from the observations alone: at every point where all
+   threads stand between two lock sections no key is stored twice and every key
+   sits in the segment a lookup goes to; once all calls have returned the counter
+   is the number of entries; and, where every insert is a SetWithCap with one
+   capacity >= 1, the entries never exceed the capacity by more than the number of
+   threads that have not returned. *)
+Definition sched_cap (prefix : list (N * N * Z)) (progs : list (list call)) : option Z :=
+  let calls := concat progs in
+  let caps := map snd prefix ++ flat_map (fun c => match c with CSwc _ _ cap => [cap] | _ => [] end) calls in
+  let uncapped := existsb (fun c => match c with CSet _ _ | CPia _ _ => true | _ => false end) calls in
+  match caps with
+  | c :: r => if forallb (Z.eqb c) r && (1 <=? c)%Z && negb uncapped then Some c else None
+  | [] => None
+  end.
+Definition grant_spec (ocap : option Z) (g : gstep) : bool :=
+  let '(Grant _ count segs done _) := g in
+  let all := flat_map snd segs in
+  nodupb (map fst all) &&
+  forallb (fun p => forallb (fun kv => Nat.eqb (go_sidx 16 (fst kv)) (fst p)) (snd p)) segs &&
+  (if forallb (fun b : bool => b) done then Z.eqb count (Z.of_nat (length all)) else true) &&
+  match ocap with
+  | Some cap => (Z.of_nat (length all) <=? cap + Z.of_nat (length (filter negb done)))%Z
+  | None => true
+  end.
+Definition sched_spec (prefix : list (N * N * Z)) (progs : list (list call)) (steps : list gstep) : bool :=
+  forallb (grant_spec (sched_cap prefix progs)) steps.
+
 Definition spec_case (c : case) : bool :=
   match c with
   | CaseTab _ _ _ steps _ _ => tab_spec_run [] steps
   | CaseSeg _ _ _ steps => seg_spec_run [] steps
   | CaseCache _ steps => seg_spec_run [] steps
   | CaseGo _ => true
+  | CaseSched prefix progs steps _ => sched_spec prefix progs steps
   end.
